@@ -133,7 +133,15 @@ func VerifC33_intdec() {
 			vfReach("ten continuation bytes")
 		}
 	} else {
-		vfAssert(err == errQPACKDecompressionFailed, "error kind")
+		// reading past the frame limit is a connection error (H3_FRAME_ERROR) since /repo commit ca44526;
+		// every other rejection is QPACK_DECOMPRESSION_FAILED
+		ce, isConn := err.(*connectionError)
+		if isConn {
+			vfAssert(lim >= 0 && ce.code == errH3FrameError, "connection error only for a frame-limit overrun")
+			vfReach("frame overrun")
+		} else {
+			vfAssert(err == errQPACKDecompressionFailed, "error kind")
+		}
 		vfReach("rejected")
 	}
 	vfReach("end")
